@@ -535,5 +535,63 @@ def c46(scn, run):
     return None
 
 
-ORACLES = {"C31": c31, "C46": c46, "C45": c45, "C06": c06, "C19": c19, "C43": c43, "C01": c01, "C02": c02, "C03": c03, "C04": c04, "C07": c07, "C09": c09, "C11": c11,
+def c20(scn, run):
+    """crash + restart: no job launched twice under one submit number, no completed instance re-run,
+    same work as the uninterrupted run"""
+    tr = run["trace"]
+    launched = {}
+    completed = set()
+    double = None
+    for e in tr:
+        if e["e"] == "submit_result":
+            k = (tuple(e["id"]), e["submit_num"])
+            launched[k] = launched.get(k, 0) + 1
+            if launched[k] > 1 and double is None:
+                double = k
+        elif e["e"] == "remove" and e["reason"] == "completed":
+            completed.add(tuple(e["t"]["id"]))
+        elif e["e"] == "submit":
+            for p, n, sn in e["jobs"]:
+                if (p, n) in completed:
+                    return f"{p}/{n} was finished and complete, yet it was submitted again (submit number {sn}) after the restart"
+    if double is not None:
+        (p, n), sn = double
+        return (f"job {p}/{n}/{sn:02d} launched twice under the same submit number "
+                f"(the scheduler died after launching it and before committing that it was submitted)")
+    # crash during the very first main-loop iteration: nothing was committed yet
+    prev_pool = None
+    first_commit_done = False
+    for e in tr:
+        if e["e"] == "tick_end":
+            first_commit_done = True
+            prev_pool = e["snap"]["tasks"]
+        elif e["e"] == "started":
+            prev_pool = e["snap"]["tasks"]
+        elif e["e"] == "restarted" and e.get("crash"):
+            if prev_pool and not e["snap"]["tasks"] and not first_commit_done:
+                return ("the scheduler died during its first main-loop iteration (before the first database commit): "
+                        f"the restart found an empty task pool and the workflow's tasks {[t['id'] for t in prev_pool]} were lost")
+            prev_pool = e["snap"]["tasks"]
+    other_ops = [o for o in scn.get("ops", []) if o["cmd"] not in ("restart", "crash")]
+    if run.get("baseline") and not run["baseline"].get("error") and not run["meta"].get("error") and not other_ops:
+        b, a = run["baseline"]["summary"], run["summary"]
+        if run["meta"]["stop"] in ("AUTOMATIC", "quiescent"):
+            std = set(S.STD)
+            bd, ad = {tuple(k): v for k, v in b["outputs"]}, {tuple(k): v for k, v in a["outputs"]}
+            lost_custom = {k: sorted(set(bd[k]) - set(ad.get(k, []))) for k in bd
+                           if k in ad and set(ad[k]) < set(bd[k]) and not (set(bd[k]) - set(ad[k])) & std}
+            if lost_custom:
+                return ("custom output(s) lost by the crash: the job's message was accepted and processed in memory, the "
+                        f"scheduler died before committing it and the job does not send it again: {lost_custom}")
+            if b["submitted"] != a["submitted"]:
+                return (f"after the crash the run submitted {a['submitted']} but the uninterrupted run "
+                        f"submitted {b['submitted']}")
+            if b["outputs"] != a["outputs"]:
+                bd, ad = {tuple(k): v for k, v in b["outputs"]}, {tuple(k): v for k, v in a["outputs"]}
+                diff = {k: (bd.get(k), ad.get(k)) for k in set(bd) | set(ad) if bd.get(k) != ad.get(k)}
+                return f"final outputs differ from the uninterrupted run (uninterrupted, crashed+restarted): {diff}"
+    return None
+
+
+ORACLES = {"C20": c20, "C31": c31, "C46": c46, "C45": c45, "C06": c06, "C19": c19, "C43": c43, "C01": c01, "C02": c02, "C03": c03, "C04": c04, "C07": c07, "C09": c09, "C11": c11,
            "C25": c25, "C26": c26}
